@@ -20,6 +20,11 @@ inductive Op
   | writeResp          -- the M4 response is written to the connection
   | peerSends          -- the controller, having seen M4, sends ciphertext under σ
   | readDone           -- the pending read gets the bytes that arrived
+  | excess             -- the raw read that carried the finish request carried further (foreign, plaintext) bytes too
+  | foreign            -- bytes that are not ciphertext under σ arrive (an on-path adversary inserts a plaintext request)
+deriving DecidableEq, Repr
+
+inductive Wire | empty | cipher | foreign
 deriving DecidableEq, Repr
 
 structure St where
@@ -27,37 +32,54 @@ structure St where
   next : Bool                    -- session.nextCryptographer ≠ nil
   pending : Option Bool          -- a read is waiting; `some true` = it took the decrypting path
   respEncrypted : Option Bool    -- how the M4 response went out
-  wireCipher : Bool              -- ciphertext of the controller is in flight
+  wire : Wire                    -- what is in flight towards the accessory
   delivered : Option Bool        -- how the controller's bytes were handed to net/http: `some true` = decrypted
+  awaiting : Bool                -- the request was received completely, its response is not written yet
+  closed : Bool                  -- the accessory closed the connection
+  foreignPlain : Bool            -- foreign bytes were handed to net/http as plaintext (it will serve them as a request)
 deriving DecidableEq, Repr
 
-def init : St := ⟨false, false, none, none, false, none⟩
+def init : St := ⟨false, false, none, none, .empty, none, true, false, false⟩
 
 /-- `fixed = true`: the code after the F18 repair. `fixed = false`: Decrypter() promoted the pending cryptographer as
     a side effect (so whichever Read ran first after SetCryptographer switched the encrypter too), and a read that was
-    already waiting handed whatever arrived to the caller as plaintext. -/
-def step (fixed : Bool) (s : St) : Op → St
+    already waiting handed whatever arrived to the caller as plaintext.
+    `strict = true`: the code after the F19 repair — on a plaintext connection, bytes that follow a complete request
+    before its response was written are refused and the connection is closed. -/
+def step (fixed strict : Bool) (s : St) (o : Op) : St :=
+  if s.closed then s else
+  match o with
   | .readStart =>
     if s.pending.isSome then s else
     if fixed then { s with pending := some (s.cur || s.next) }
     else
       let cur' := s.cur || s.next               -- Decrypter(): promote
       { s with cur := cur', next := false, pending := some cur' }
-  | .setCrypt => { s with next := true }
+  | .setCrypt => if s.awaiting then { s with next := true } else s     -- the handler runs before its response
   | .writeResp =>
     if s.respEncrypted.isSome then s else
-    let s1 := { s with respEncrypted := some s.cur }
+    let s1 := { s with respEncrypted := some s.cur, awaiting := false }
     if fixed then { s1 with cur := s1.cur || s1.next, next := false } else s1
-  | .peerSends => if s.respEncrypted.isSome then { s with wireCipher := true } else s
+  | .peerSends => if s.respEncrypted.isSome && s.wire == .empty then { s with wire := .cipher } else s
+  | .foreign => if s.wire == .empty then { s with wire := .foreign } else s
+  | .excess =>
+    if s.awaiting && !s.cur && !s.next then
+      if strict then { s with closed := true } else { s with foreignPlain := true }
+    else s
   | .readDone =>
     match s.pending with
     | none => s
     | some dec =>
-      if !s.wireCipher then s else
       let dec' := if fixed then dec || s.cur || s.next else dec   -- re-classify bytes of a read that was waiting
-      { s with pending := none, delivered := some dec', wireCipher := false }
+      match s.wire with
+      | .empty => s
+      | .cipher => { s with pending := none, delivered := some dec', wire := .empty }
+      | .foreign =>
+        if dec' then { s with pending := none, wire := .empty, closed := true }            -- authentication fails
+        else if strict && s.awaiting then { s with pending := none, wire := .empty, closed := true }
+        else { s with pending := none, wire := .empty, foreignPlain := true }
 
-def run (fixed : Bool) (ops : List Op) : St := ops.foldl (step fixed) init
+def run (fixed strict : Bool) (ops : List Op) : St := ops.foldl (step fixed strict) init
 
 /-- schedules of interest: the handler's two steps in order, the peer after the response, the read's two steps in
     order with `readDone` after `peerSends`; `readStart` anywhere -/
